@@ -103,7 +103,12 @@ def twin_blocks(P, rep, rule="SIB.kinds"):
                         kinds_seq.append(m.group(1))
                 if len(kinds_seq) >= 2:
                     n += 1
-                    if kinds_seq == list(KINDS):
+                    prefixes = {re.sub(r"(temperature|composition|grains|velocity)_models$", "", a) for a in args if re.search(r"(temperature|composition|grains|velocity)_models$", a)}
+                    if len(prefixes) != 1:
+                        rep.violation(rule, "%s: model lists of different origin are mixed: %s" % (label, [a for a in args if a.endswith("_models")]), F.nloc(x), F.qn,
+                                      norm.render(P, x)[:160], "one kind takes its defaults from another level (feature vs section) than the others",
+                                      key="%s|%s|mixed-origin" % (rule, label), witness="section-level models of that kind, segments without their own")
+                    elif kinds_seq == list(KINDS):
                         rep.ok(rule, "%s: lists passed on as (temperature, composition, grains, velocity)" % label, F.nloc(x), F.qn)
                     else:
                         rep.violation(rule, "%s: model lists passed on in order %s" % (label, kinds_seq), F.nloc(x), F.qn, norm.render(P, x)[:140],
@@ -496,3 +501,69 @@ def plane_call_sites(P, rep, rule="M2"):
     else:
         rep.violation(rule, "World::distance_to_plane does not forward transparently (%s)" % why, W.loc, W.qn, "", "the public query reports distances of another point/feature",
                       key=rule + "|world", witness="two slabs with different names")
+
+
+# ------------------------------------------------------------------------------------------------
+def kernel_interpolation(P, rep, rule="I1.kernel"):
+    """inside distance_point_from_curved_planes the per-section tables are read only through cur + f*(next - cur)"""
+    rep.rule(rule, "in Utilities::distance_point_from_curved_planes every element of the per-section tables (segment lengths, segment angles) "
+                   "is read only inside an expression T[cur][j](c) + f*(T[next][j](c) - T[cur][j](c)) with cur/next the two sections adjacent "
+                   "to the closest point and f the fraction between them; a raw per-section value is never used on its own (only .size() is)")
+    F = P.func("WorldBuilder::Utilities::distance_point_from_curved_planes")
+    R = lambda x: norm.render(P, x, nocast=True).replace(" ", "")
+    names = [P.d(p).get("n") for p in F.params]
+    tabs = [F.params[names.index(nm)] for nm in ("plane_segment_lengths", "plane_segment_angles") if nm in names]
+    if len(tabs) != 2:
+        rep.unknown(rule, "table parameters of distance_point_from_curved_planes not found")
+        return
+    n = 0
+    for x in F.walk():
+        if not (x.get("k") == "DeclRefExpr" and x.get("r") in tabs):
+            continue
+        # climb over the subscripts
+        top = x
+        depth = 0
+        while True:
+            par = F.parent.get(top["i"])
+            while par is not None and par.get("k") in norm.CASTS:
+                par = F.parent.get(par["i"])
+            s = astq.subscript(par) if par is not None else None
+            if s and sc(s[0]) is top:
+                top = par
+                depth += 1
+            else:
+                break
+        par = F.parent.get(top["i"])
+        if par is not None and par.get("k") == "MemberExpr" and par.get("n") == "size":
+            continue
+        if x.get("m"):      # inside an assertion macro
+            continue
+        if any(a.get("m") in ("WBAssert", "WBAssertThrow") for a in F.ancestors(x)):
+            continue
+        n += 1
+        # find the enclosing `A + f*(B - A)`
+        ok = False
+        why = "used on its own"
+        for a in F.ancestors(top):
+            if a.get("k") == "BinaryOperator" and a.get("op") == "+":
+                l, r = sc(a["c"][0]), sc(a["c"][1])
+                for A, prod in ((l, r), (r, l)):
+                    if prod.get("k") == "BinaryOperator" and prod.get("op") == "*":
+                        u, v = sc(prod["c"][0]), sc(prod["c"][1])
+                        for fr, diff in ((u, v), (v, u)):
+                            if fr.get("k") == "DeclRefExpr" and diff.get("k") == "BinaryOperator" and diff.get("op") == "-":
+                                a_t, b_t, a2_t = R(A), R(diff["c"][0]), R(diff["c"][1])
+                                if a_t == a2_t and "original_current_section" in a_t and b_t == a_t.replace("original_current_section", "original_next_section") \
+                                        and fr.get("n", "").startswith("fraction"):
+                                    ok = True
+                                elif a_t == a2_t:
+                                    why = "interpolates %s towards %s" % (a_t[:50], b_t[:50])
+                if ok:
+                    break
+        if ok:
+            continue
+        rep.violation(rule, "%s is %s (line %s)" % (R(top)[:70], why, x.get("l")), F.nloc(x), F.qn, norm.render(P, F.parent.get(top["i"]) or top)[:140],
+                      "between two coordinates the geometry is not the convex combination of the two adjacent sections", key="%s|%s" % (rule, R(top)[:50]),
+                      witness="a segment whose length/angle differs between two adjacent sections (e.g. 0 in one, 200 km in the next)")
+    rep.ok(rule, "%d reads of the per-section tables, all inside cur + f*(next - cur)" % n, F.loc, F.qn)
+    rep.floor(rule, n, 12, "reads of per-section tables in the kernel")
